@@ -76,9 +76,13 @@ def _mk_invalid_kind(spec, kind, pick):
         inv["where"] = n["id"]
     elif kind == "nonblocking_zero_iat":
         n = choose([n for n in nodes if n["type"] == "Source"])
-        n["iat"] = {"kind": "const", "values": [0]}
+        # int zero, float zero, and a callable / generator whose every answer is zero
+        variant = pick % 4
+        n["iat"] = [{"kind": "const", "values": [0]}, {"kind": "const", "values": [0.0]},
+                    {"kind": "callable", "values": [0]}, {"kind": "generator", "values": [0.0]}][variant]
         n["blocking"] = False
         inv["where"] = n["id"]
+        inv["variant"] = ["int0", "float0", "callable0", "generator0"][variant]
     elif kind in ("missing_in_edge", "missing_out_edge"):
         # add a node that lacks a required edge
         if kind == "missing_in_edge":
@@ -160,7 +164,12 @@ def run_case(case):
     kinds = sorted(set(e["kind"] for e in case["edges"]))
     res.classes = ["shape:" + case.get("shape", "?")] + ["edge:" + k for k in kinds]
     if inv:
-        res.classes = ["invalid:" + inv["kind"]]
+        res.classes = ["invalid:" + inv["kind"] + (":" + inv["variant"] if "variant" in inv else "")]
+        if f.livelock:
+            res.violate(("invalid", inv["kind"] + (":" + inv["variant"] if "variant" in inv else ""), "accepted_and_livelocks"),
+                        "invalid configuration (%s at %s) was accepted and spins at t=%s (more than 20000 events in one instant)" % (
+                            inv["kind"], inv.get("where"), f.env.now))
+            return res
         if exc is None and not f.livelock:
             used = True
             if inv.get("needs_use"):
